@@ -14,7 +14,8 @@ import Genshi.Model.ParseXml
         item = ( se name ( ( n v )... ) ) | ( ee name ) | ( cd text ) | ( xd version enc|N standalone )
              | ( dt name sysid|N pubid|N T|F ) | ( ns pfx|N uri|N ) | ( ens pfx|N ) | sc | ec | ( pi t d )
              | ( cm text ) | ( df text line col ) | ( xerr line col ) | ( raise Name T|F )
-    answer: ( ( event... ) ok ) | ( ( event... ) ( parseError line col ) ) | ( ( event... ) ( propagate Name ) )
+    Every callback item carries the tokenizer's position as two trailing atoms: ( ST tag attrs line col ) ...
+    answer: ( ( ( event line col )... ) ok ) | ( ( ... ) ( parseError line col ) ) | ( ( ... ) ( propagate sName ) )
             | unmodelled
 -/
 namespace Driver.C07
@@ -31,20 +32,22 @@ def hattrs? : Sexp → Option (List (Str × Option Str))
       | _ => none
   | _ => none
 
-def htmlItem? : Sexp → Option (Item HtmlCb)
-  | .list [.atom "ST", .str tag, a] => do let a ← hattrs? a; pure (.cb (.starttag tag a))
-  | .list [.atom "SE", .str tag, a] => do let a ← hattrs? a; pure (.cb (.startendtag tag a))
-  | .list [.atom "ET", .str tag] => some (.cb (.endtag tag))
-  | .list [.atom "D", .str s] => some (.cb (.data s))
-  | .list [.atom "C", .str s] => some (.cb (.comment s))
-  | .list [.atom "PI", .str s] => some (.cb (.pi s))
-  | .list [.atom "CR", .str s] => some (.cb (.charref s))
-  | .list [.atom "ER", .str s] => some (.cb (.entityref s))
-  | .list [.atom "DECL", .str s] => some (.cb (.decl s))
+def pos? (l c : Sexp) : Option Pos := do let l ← l.toInt?; let c ← c.toInt?; pure (l, c)
+
+def htmlItem? : Sexp → Option (Item (HtmlCb × Pos))
+  | .list [.atom "ST", .str tag, a, l, c] => do let a ← hattrs? a; let p ← pos? l c; pure (.cb (.starttag tag a, p))
+  | .list [.atom "SE", .str tag, a, l, c] => do let a ← hattrs? a; let p ← pos? l c; pure (.cb (.startendtag tag a, p))
+  | .list [.atom "ET", .str tag, l, c] => do let p ← pos? l c; pure (.cb (.endtag tag, p))
+  | .list [.atom "D", .str s, l, c] => do let p ← pos? l c; pure (.cb (.data s, p))
+  | .list [.atom "C", .str s, l, c] => do let p ← pos? l c; pure (.cb (.comment s, p))
+  | .list [.atom "PI", .str s, l, c] => do let p ← pos? l c; pure (.cb (.pi s, p))
+  | .list [.atom "CR", .str s, l, c] => do let p ← pos? l c; pure (.cb (.charref s, p))
+  | .list [.atom "ER", .str s, l, c] => do let p ← pos? l c; pure (.cb (.entityref s, p))
+  | .list [.atom "DECL", .str s, l, c] => do let p ← pos? l c; pure (.cb (.decl s, p))
   | .list [.atom "RAISE", .str n, b] => do let e ← exc? n b; pure (.raise e)
   | _ => none
 
-def htmlRead? : Sexp → Option HtmlRead
+def htmlRead? : Sexp → Option HtmlReadP
   | .atom "B" => some .bytes
   | .list (.atom "T" :: items) => do let l ← items.mapM htmlItem?; pure (.text l)
   | .list [.atom "F", .str n, b] => do let e ← exc? n b; pure (.fail e)
@@ -60,11 +63,11 @@ def stripOf (tbl : List (Str × Except PyExc Str)) (v : Str) : Except PyExc Str 
   | some p => p.2
   | none => .error (.base "missing-strip-row".toList)
 
-def itemModelled : Item HtmlCb → Bool
-  | .cb (.charref n) => charrefModelled n
+def itemModelled : Item (HtmlCb × Pos) → Bool
+  | .cb (.charref n, _) => charrefModelled n
   | _ => true
 
-def readModelled : HtmlRead → Bool
+def readModelled : HtmlReadP → Bool
   | .text l => l.all itemModelled
   | _ => true
 
@@ -73,7 +76,9 @@ def raisedOut : Option Raised → Sexp
   | some (.parseError l c) => .list [.atom "parseError", ofInt l, ofInt c]
   | some (.propagate n) => .list [.atom "propagate", .str n]
 
-def answer (r : Stream × Option Raised) : Sexp := .list [streamToSexp r.1, raisedOut r.2]
+def pevToSexp (e : PEvent) : Sexp := .list [e.1.toSexp, ofInt e.2.1, ofInt e.2.2]
+
+def answer (r : PStream × Option Raised) : Sexp := .list [.list (r.1.map pevToSexp), raisedOut r.2]
 
 def xattrs? : Sexp → Option (List (Str × Str))
   | .list xs => xs.mapM fun
@@ -81,25 +86,28 @@ def xattrs? : Sexp → Option (List (Str × Str))
       | _ => none
   | _ => none
 
-def xmlItem? : Sexp → Option (Item XmlCb)
-  | .list [.atom "SE", .str n, a] => do let a ← xattrs? a; pure (.cb (.startElement n a))
-  | .list [.atom "EE", .str n] => some (.cb (.endElement n))
-  | .list [.atom "CD", .str s] => some (.cb (.characterData s))
-  | .list [.atom "XD", .str v, e, s] => do let e ← optStr? e; let s ← s.toInt?; pure (.cb (.xmlDecl v e s))
-  | .list [.atom "DT", .str n, s, p, h] => do
-      let s ← optStr? s; let p ← optStr? p; let h ← h.toBool?; pure (.cb (.startDoctype n s p h))
-  | .list [.atom "NS", p, u] => do let p ← optStr? p; let u ← optStr? u; pure (.cb (.startNs p u))
-  | .list [.atom "ENS", p] => do let p ← optStr? p; pure (.cb (.endNs p))
-  | .atom "SC" => some (.cb .startCdata)
-  | .atom "EC" => some (.cb .endCdata)
-  | .list [.atom "PI", .str t, .str d] => some (.cb (.pi t d))
-  | .list [.atom "CM", .str s] => some (.cb (.comment s))
-  | .list [.atom "DF", .str s, l, c] => do let l ← l.toInt?; let c ← c.toInt?; pure (.cb (.default_ s l c))
+def xmlItem? : Sexp → Option (Item (XmlCb × Pos))
+  | .list [.atom "SE", .str n, a, l, c] => do let a ← xattrs? a; let p ← pos? l c; pure (.cb (.startElement n a, p))
+  | .list [.atom "EE", .str n, l, c] => do let p ← pos? l c; pure (.cb (.endElement n, p))
+  | .list [.atom "CD", .str s, l, c] => do let p ← pos? l c; pure (.cb (.characterData s, p))
+  | .list [.atom "XD", .str v, e, s, l, c] => do
+      let e ← optStr? e; let s ← s.toInt?; let p ← pos? l c; pure (.cb (.xmlDecl v e s, p))
+  | .list [.atom "DT", .str n, s, pb, h, l, c] => do
+      let s ← optStr? s; let pb ← optStr? pb; let h ← h.toBool?; let p ← pos? l c
+      pure (.cb (.startDoctype n s pb h, p))
+  | .list [.atom "NS", pf, u, l, c] => do
+      let pf ← optStr? pf; let u ← optStr? u; let p ← pos? l c; pure (.cb (.startNs pf u, p))
+  | .list [.atom "ENS", pf, l, c] => do let pf ← optStr? pf; let p ← pos? l c; pure (.cb (.endNs pf, p))
+  | .list [.atom "SC", l, c] => do let p ← pos? l c; pure (.cb (.startCdata, p))
+  | .list [.atom "EC", l, c] => do let p ← pos? l c; pure (.cb (.endCdata, p))
+  | .list [.atom "PI", .str t, .str d, l, c] => do let p ← pos? l c; pure (.cb (.pi t d, p))
+  | .list [.atom "CM", .str s, l, c] => do let p ← pos? l c; pure (.cb (.comment s, p))
+  | .list [.atom "DF", .str s, l, c] => do let p ← pos? l c; pure (.cb (.default_ s p.1 p.2, p))
   | .list [.atom "XERR", l, c] => do let l ← l.toInt?; let c ← c.toInt?; pure (.raise (.expat l c))
   | .list [.atom "RAISE", .str n, b] => do let e ← exc? n b; pure (.raise e)
   | _ => none
 
-def xmlRead? : Sexp → Option XmlRead
+def xmlRead? : Sexp → Option XmlReadP
   | .atom "UNENC" => some .unencodable
   | .list (.atom "T" :: items) => do let l ← items.mapM xmlItem?; pure (.chunk l)
   | .list [.atom "F", .str n, b] => do let e ← exc? n b; pure (.fail e)
@@ -112,14 +120,15 @@ def handle : List Sexp → Option Sexp
       let tbl ← tbl.mapM stripRow?
       if !(reads.all readModelled && close.all itemModelled) then pure (.atom "unmodelled") else
       let env : Env := { strip := stripOf tbl, lower := asciiLower, void := Genshi.Gen.Output.parserEmptyElems }
-      pure (answer (htmlParse env reads close))
+      pure (answer (htmlParseP env reads close))
   | [.atom "xml", .list reads, .list close] => do
       let reads ← reads.mapM xmlRead?
       let close ← close.mapM xmlItem?
-      pure (answer (xmlParse reads close))
+      pure (answer (xmlParseP reads close))
   | [.atom "qname", .str s] => some (mkQName s).toSexp
   | [.atom "coalesce", f, s] => do
       let f ← f.toBool?; let s ← streamOfSexp? s; pure (streamToSexp (coalesceGo f none s))
+  | [.atom "linecount", .str s] => some (ofNat (lineCount s))
   | _ => none
 
 end Driver.C07
